@@ -15,13 +15,18 @@ import (
 type tTok struct {
 	Lit   string
 	Field string /* ".ID" → "ID"; "." → "."; other actions → "?<text>" */
+	Func  string /* {{ f .X }} / {{ .X | f }}: the one function applied to the field */
 	Range bool   /* Inside a {{range}} body. */
 }
 
 // flattenTemplate parses text and inlines {{template}} calls of locally
 // defined templates, returning the token sequence of the top-level template.
-func flattenTemplate(name, text string) ([]tTok, error) {
-	trees, err := parse.Parse(name, text, "{{", "}}", map[string]any{})
+func flattenTemplate(name, text string, funcNames ...string) ([]tTok, error) {
+	fm := map[string]any{}
+	for _, n := range funcNames {
+		fm[n] = func() {}
+	}
+	trees, err := parse.Parse(name, text, "{{", "}}", fm)
 	if nil != err {
 		return nil, err
 	}
@@ -50,15 +55,40 @@ func flattenTemplate(name, text string) ([]tTok, error) {
 		case *parse.CommentNode:
 		case *parse.ActionNode:
 			f := "?" + x.String()
-			if 1 == len(x.Pipe.Cmds) && 1 == len(x.Pipe.Cmds[0].Args) && 0 == len(x.Pipe.Decl) {
-				switch a := x.Pipe.Cmds[0].Args[0].(type) {
+			fn := ""
+			fieldOf := func(n parse.Node) (string, bool) {
+				switch a := n.(type) {
 				case *parse.FieldNode:
-					f = strings.Join(a.Ident, ".")
+					return strings.Join(a.Ident, "."), true
 				case *parse.DotNode:
-					f = "."
+					return ".", true
+				}
+				return "", false
+			}
+			if 0 == len(x.Pipe.Decl) {
+				cmds := x.Pipe.Cmds
+				switch {
+				case 1 == len(cmds) && 1 == len(cmds[0].Args):
+					if s, ok := fieldOf(cmds[0].Args[0]); ok {
+						f = s
+					}
+				case 1 == len(cmds) && 2 == len(cmds[0].Args):
+					/* {{ f .X }} */
+					if id, ok := cmds[0].Args[0].(*parse.IdentifierNode); ok {
+						if s, ok := fieldOf(cmds[0].Args[1]); ok {
+							f, fn = s, id.Ident
+						}
+					}
+				case 2 == len(cmds) && 1 == len(cmds[0].Args) && 1 == len(cmds[1].Args):
+					/* {{ .X | f }} */
+					if id, ok := cmds[1].Args[0].(*parse.IdentifierNode); ok {
+						if s, ok := fieldOf(cmds[0].Args[0]); ok {
+							f, fn = s, id.Ident
+						}
+					}
 				}
 			}
-			out = append(out, tTok{Field: f, Range: inRange})
+			out = append(out, tTok{Field: f, Func: fn, Range: inRange})
 		case *parse.TemplateNode:
 			t := trees[x.Name]
 			if nil == t {
